@@ -202,10 +202,14 @@ def isActive (s : State) : Bool := decide (s.now ≥ s.start) && decide (s.now <
 /-- `query_config().is_active` -/
 def configIsActive (s : State) : Bool := decide (s.now ≥ s.start) && decide (s.now < s.end_)
 
+/-- block time after `op` when it was `n` before: only the chain (`setTime`) moves the clock -/
+def opTime (n : Nat) : Op → Nat
+  | .setTime t => t
+  | _ => n
+
 /-- the clock never goes backwards along `ops`, starting from time `n` -/
 def TimeMonotone : Nat → List Op → Prop
   | _, [] => True
-  | n, .setTime t :: ops => n ≤ t ∧ TimeMonotone t ops
-  | n, _ :: ops => TimeMonotone n ops
+  | n, op :: ops => n ≤ opTime n op ∧ TimeMonotone (opTime n op) ops
 
 end LP.WlSchedule
